@@ -1,3 +1,447 @@
 import Usual.Common
-/-! Model driver for C15 (stub: not built yet). -/
-def main : IO Unit := IO.println "stub"
+import Usual.C15.Store
+import Usual.C15.HashTab
+import Usual.C15.Heap
+import Usual.C15.ListSort
+import Usual.C15.DList
+import Usual.C15.SHList
+/-! Model driver for C15: hash table (`ht`), heap (`hp`), List/StatList/list_sort (`dl`),
+    SHList (`sh`).  One output line per input line: `observable ## internal`. -/
+open Usual Usual.C15
+
+namespace C15Drv
+
+def fnvInit : UInt64 := 0xcbf29ce484222325
+def fnv (h v : UInt64) : UInt64 := Id.run do
+  let mut h := h
+  for i in [0:8] do
+    h := (h ^^^ ((v >>> (8 * i).toUInt64) &&& 0xff)) * 0x100000001b3
+  return h
+def fnvN (h : UInt64) (v : Nat) : UInt64 := fnv h (UInt64.ofNat v)
+def fnvI (h : UInt64) (v : Int) : UInt64 := fnv h (UInt64.ofInt v)
+def hx (h : UInt64) : String := String.ofList (Nat.toDigits 16 h.toNat)
+
+def splitmix (seed i : Nat) : Nat :=
+  let s : UInt64 := UInt64.ofNat seed * 0x9E3779B97F4A7C15 + 0x1234567 + (UInt64.ofNat (i + 1)) * 0x9E3779B97F4A7C15
+  let z := (s ^^^ (s >>> 30)) * 0xBF58476D1CE4E5B9
+  let z := (z ^^^ (z >>> 27)) * 0x94D049BB133111EB
+  (z ^^^ (z >>> 31)).toNat
+
+/-- decimal `unsigned long long` (what the harness accepts with strtoull) -/
+def _root_.String.pn (w : String) : Option Nat :=
+  if w.isEmpty || !(w.toList.all Char.isDigit) then none else
+  match w.toNat? with
+  | some n => if n < 2 ^ 64 then some n else none
+  | none => none
+
+structure St where
+  -- hashtab
+  ht : List HashTab.Table := [HashTab.create 8]
+  htMode : Nat := 0
+  -- heap
+  hp : Heap.Heap := Heap.init
+  pri : Store := Store.empty
+  inHeap : Store := Store.empty
+  -- lists
+  dl : DList.DL := DList.listInit (DList.listInit (DList.listInit (DList.listInit DList.empty 1) 2) 3) 4
+  dkey : Store := Store.empty
+  dst : Store := Store.empty          -- 0 = uninitialised, 1 = detached, 1 + h = member of list h
+  dcnt3 : Int := 0
+  dcnt4 : Int := 0
+  dmax : Nat := 4
+  -- shlist
+  sh : SHList.Mem := SHList.init (SHList.init SHList.emptyMem 65536) (65536 + 16)
+  shOff : Nat := 0
+  shSt : Store := Store.empty          -- per slot: 0 uninit, 1 detached, 2 + h member of head h
+
+def shArena : Nat := 65536
+def shSlots : Nat := 64
+def shLen : Nat := shSlots * 16
+def shArenaLen : Nat := 8192
+
+/-! ## hashtab -/
+
+def htCmp (mode : Nat) (cur arg : Nat) : Bool :=
+  if mode = 0 then cur == arg else cur / 16 == arg / 16
+def htShift (mode v : Nat) : Nat := if mode = 0 then v else v / 16
+
+def pairLt (a b : Nat × Nat) : Bool := a.1 < b.1 || (a.1 == b.1 && a.2 < b.2)
+
+def htSorted (s : St) : Array (Nat × Nat) :=
+  ((HashTab.contents s.ht).map fun kv => (kv.1, htShift s.htMode kv.2)).toArray.qsort pairLt
+
+def htTail (s : St) : String :=
+  let st := HashTab.stats s.ht
+  let c := (htSorted s).foldl (fun h kv => fnvN (fnvN h kv.1) kv.2) fnvInit
+  let ih := s.ht.foldl (fun h t =>
+    (List.range t.size).foldl (fun h i => fnvN (fnvN h (t.keys.get i)) (t.vals.get i))
+      (fnvN (fnvN h t.size) t.used)) fnvInit
+  s!" n={st.1} c={hx c} ## nt={st.2} h={hx ih}"
+
+def htDump (s : St) : String :=
+  let st := HashTab.stats s.ht
+  let c := ",".intercalate ((htSorted s).toList.map fun kv => s!"{kv.1}:{kv.2}")
+  let tabs := " ".intercalate (s.ht.map fun t =>
+    s!"T{t.size}:{t.used}:[" ++ ",".intercalate ((List.range t.size).map fun i =>
+      s!"{t.keys.get i}:{t.vals.get i}") ++ "]")
+  s!"dump n={st.1} c={c} ## nt={st.2} {tabs}"
+
+def isPow2 (n : Nat) : Bool := n ≥ 2 && n ≤ 1024 && (n &&& (n - 1)) == 0
+
+def parseArg (w : String) : Option (Option Nat) :=
+  if w == "-" then some none else
+  match w.pn with
+  | some a => if a ≥ 1 then some (some a) else none
+  | none => none
+
+def htStep (s : St) (w : List String) : St × String :=
+  match w with
+  | ["new", sz, md] =>
+    match sz.pn, md.pn with
+    | some sz, some md =>
+      if isPow2 sz && md ≤ 1 then
+        let s := { s with ht := [HashTab.create sz], htMode := md }
+        (s, "ok" ++ htTail s)
+      else (s, "bad-op")
+    | _, _ => (s, "bad-op")
+  | ["ins", k, v, a] =>
+    match k.pn, v.pn, parseArg a with
+    | some k, some v, some a =>
+      if v = 0 then (s, "bad-op") else
+      let r := HashTab.insert (htCmp s.htMode) k v a s.ht
+      let s := { s with ht := r.1 }
+      match r.2 with
+      | .new => (s, "new" ++ htTail s)
+      | .exists e => (s, s!"exists {htShift s.htMode e}" ++ htTail s)
+      | .spin => (s, "SPIN")
+    | _, _, _ => (s, "bad-op")
+  | ["get", k, a] =>
+    match k.pn, parseArg a with
+    | some k, some a =>
+      match HashTab.lookup (htCmp s.htMode) k a s.ht 0 with
+      | .found ti p =>
+        let v := ((s.ht.getD ti (HashTab.create 0)).vals.get p)
+        (s, s!"found {htShift s.htMode v}" ++ htTail s ++ s!" at={ti}:{p}:{v}")
+      | .none => (s, "none" ++ htTail s)
+      | .spin => (s, "SPIN")
+    | _, _ => (s, "bad-op")
+  | ["del", k, a] =>
+    match k.pn, parseArg a with
+    | some k, some a =>
+      match HashTab.delete (htCmp s.htMode) k a s.ht with
+      | some h => let s := { s with ht := h }; (s, "ok" ++ htTail s)
+      | none => (s, "SPIN")
+    | _, _ => (s, "bad-op")
+  | ["copy", sz] =>
+    match sz.pn with
+    | some sz =>
+      if isPow2 sz then
+        match HashTab.copy s.ht sz with
+        | some h => let s := { s with ht := h }; (s, "ok" ++ htTail s)
+        | none => (s, "SPIN")
+      else (s, "bad-op")
+    | none => (s, "bad-op")
+  | ["all"] =>
+    -- every stored pair must be findable through the API with itself as `arg`
+    let pairs := HashTab.contents s.ht
+    let ok := pairs.foldl (fun n kv =>
+      match HashTab.lookup (htCmp s.htMode) kv.1 (some kv.2) s.ht 0 with
+      | .found ti p =>
+        let t := s.ht.getD ti (HashTab.create 0)
+        if t.keys.get p = kv.1 && htCmp s.htMode (t.vals.get p) kv.2 then n + 1 else n
+      | _ => n) 0
+    (s, s!"all {ok}/{pairs.length}" ++ htTail s)
+  | ["dump"] => (s, htDump s)
+  | _ => (s, "bad-op")
+
+/-! ## heap -/
+
+def hpBetter (pri : Store) (a b : Nat) : Bool := pri.get a < pri.get b
+
+def hpTail (s : St) : String :=
+  let ids := Heap.toList s.hp
+  let ps := (ids.map s.pri.get).toArray.qsort (· < ·)
+  let m := ps.foldl fnvN fnvInit
+  let ih := ids.foldl fnvN fnvInit
+  let sp := if Heap.posOkB s.hp then 1 else 0
+  s!" n={s.hp.used} sp={sp} m={hx m} ## a={s.hp.allocated} h={hx ih}"
+
+def hpStep (s : St) (w : List String) : St × String :=
+  let better := hpBetter s.pri
+  match w with
+  | ["push", id, p] =>
+    match id.pn, p.pn with
+    | some id, some p =>
+      if id = 0 || id ≥ 4096 || s.inHeap.get id ≠ 0 then (s, "bad-op") else
+      let pri := s.pri.set id p
+      let s := { s with pri := pri, inHeap := s.inHeap.set id 1, hp := Heap.push (hpBetter pri) s.hp id }
+      (s, "1" ++ hpTail s)
+    | _, _ => (s, "bad-op")
+  | ["pop"] =>
+    let r := Heap.pop better s.hp
+    if r.2 = 0 then (s, "null" ++ hpTail s) else
+    let s := { s with hp := r.1, inHeap := s.inHeap.set r.2 0 }
+    (s, s!"pri={s.pri.get r.2}" ++ hpTail s ++ s!" id={r.2}")
+  | ["rm", i] =>
+    match i.pn with
+    | some i =>
+      let at_ := Heap.getObj s.hp i
+      let r := Heap.remove better s.hp i
+      if r.2 = 0 then (s, "null" ++ hpTail s) else
+      let s := { s with hp := r.1, inHeap := s.inHeap.set r.2 0 }
+      (s, s!"same={if at_ = r.2 then 1 else 0}" ++ hpTail s ++ s!" id={r.2}")
+    | none => (s, "bad-op")
+  | ["top"] =>
+    let t := Heap.top s.hp
+    if t = 0 then (s, "null" ++ hpTail s) else (s, s!"pri={s.pri.get t}" ++ hpTail s ++ s!" id={t}")
+  | ["get", i] =>
+    match i.pn with
+    | some i =>
+      let t := Heap.getObj s.hp i
+      if t = 0 then (s, "null" ++ hpTail s) else (s, "obj" ++ hpTail s ++ s!" id={t}")
+    | none => (s, "bad-op")
+  | ["reserve", e] =>
+    match e.pn with
+    | some e =>
+      if e > 100000 then (s, "bad-op") else
+      let s := { s with hp := Heap.reserve s.hp e }
+      (s, "1" ++ hpTail s)
+    | none => (s, "bad-op")
+  | ["dump"] =>
+    let ids := Heap.toList s.hp
+    (s, "dump " ++ ",".intercalate (ids.map fun x => s!"{s.pri.get x}") ++ s!" n={s.hp.used} ## a={s.hp.allocated} " ++
+        ",".intercalate (ids.map fun x => s!"{x}@{s.hp.pos.get x}"))
+  | _ => (s, "bad-op")
+
+/-! ## List / StatList / list_sort -/
+
+def dlMaxNode : Nat := 10100
+
+def dlCount (s : St) (h : Nat) : Int := if h = 3 then s.dcnt3 else s.dcnt4
+def dlSetCount (s : St) (h : Nat) (c : Int) : St := if h = 3 then { s with dcnt3 := c } else { s with dcnt4 := c }
+
+def hashList (l : List Nat) : UInt64 := l.foldl fnvN fnvInit
+
+def dlHeadStr (s : St) (h : Nat) : String :=
+  let fuel := s.dmax + 1
+  let f := DList.toList s.dl h fuel
+  let b := DList.toListRev s.dl h fuel
+  let base := s!" L{h}={f.length}:{hx (hashList f)}:{b.length}:{hx (hashList b)}"
+  if h ≥ 3 then base ++ s!":{dlCount s h}" else base
+
+def dlTail (s : St) : String :=
+  let ih := (List.range (s.dmax + 1)).foldl (fun h i => fnvN (fnvN h (s.dl.next.get i)) (s.dl.prev.get i)) fnvInit
+  dlHeadStr s 1 ++ dlHeadStr s 2 ++ dlHeadStr s 3 ++ dlHeadStr s 4 ++ s!" ## r={hx ih}"
+
+def isHead (h : Nat) : Bool := h ≥ 1 && h ≤ 4
+def isItem (x : Nat) : Bool := x ≥ 5 && x ≤ dlMaxNode
+
+def dlLe (key : Store) (a b : Nat) : Bool := key.get a ≤ key.get b
+
+def ptrStr (x : Nat) : String := if x = 0 then "null" else toString x
+
+def dlInsert (s : St) (h x : Nat) (front : Bool) : St :=
+  let s := { s with dst := s.dst.set x (1 + h) }
+  if h ≤ 2 then
+    { s with dl := if front then DList.listPrepend s.dl h x else DList.listAppend s.dl h x }
+  else
+    let sl : DList.SL := { head := h, count := dlCount s h }
+    let r := if front then DList.statPrepend s.dl sl x else DList.statAppend s.dl sl x
+    dlSetCount { s with dl := r.1 } h r.2.count
+
+def dlStep (s : St) (w : List String) : St × String :=
+  match w with
+  | ["node", x] =>
+    match x.pn with
+    | some x =>
+      if isItem x && s.dst.get x ≤ 1 then
+        let s := { s with dl := DList.listInit s.dl x, dst := s.dst.set x 1, dmax := max s.dmax x }
+        (s, "ok" ++ dlTail s)
+      else (s, "bad-op")
+    | none => (s, "bad-op")
+  | ["key", x, k] =>
+    match x.pn, k.pn with
+    | some x, some k =>
+      if isItem x && k < 1000000 then
+        let s := { s with dkey := s.dkey.set x k }
+        (s, "ok" ++ dlTail s)
+      else (s, "bad-op")
+    | _, _ => (s, "bad-op")
+  | [op, h, x] =>
+    match h.pn, x.pn with
+    | some h, some x =>
+      if op == "pre" || op == "app" then
+        if isHead h && isItem x && s.dst.get x = 1 then
+          let s := dlInsert s h x (op == "pre")
+          (s, "ok" ++ dlTail s)
+        else (s, "bad-op")
+      else (s, "bad-op")
+    | _, _ => (s, "bad-op")
+  | ["del", x] =>
+    match x.pn with
+    | some x =>
+      if isItem x && s.dst.get x ≥ 1 then
+        let h := s.dst.get x - 1
+        let s := { s with dst := s.dst.set x 1 }
+        if h ≥ 3 then
+          let r := DList.statRemove s.dl { head := h, count := dlCount s h } x
+          let s := dlSetCount { s with dl := r.1 } h r.2.count
+          (s, "ok" ++ dlTail s)
+        else
+          let s := { s with dl := DList.listDel s.dl x }
+          (s, "ok" ++ dlTail s)
+      else (s, "bad-op")
+    | none => (s, "bad-op")
+  | [op, h] =>
+    match h.pn with
+    | some h =>
+      if !isHead h then (s, "bad-op") else
+      if op == "pop" then
+        if h ≤ 2 then
+          let r := DList.listPop s.dl h
+          let s := { s with dl := r.1, dst := if r.2 = 0 then s.dst else s.dst.set r.2 1 }
+          (s, ptrStr r.2 ++ dlTail s)
+        else
+          let r := DList.statPop s.dl { head := h, count := dlCount s h }
+          let s := dlSetCount { s with dl := r.1, dst := if r.2.2 = 0 then s.dst else s.dst.set r.2.2 1 } h r.2.1.count
+          (s, ptrStr r.2.2 ++ dlTail s)
+      else if op == "first" then (s, ptrStr (DList.listFirst s.dl h) ++ dlTail s)
+      else if op == "last" then (s, ptrStr (DList.listLast s.dl h) ++ dlTail s)
+      else if op == "empty" then (s, (if DList.listEmpty s.dl h then "1" else "0") ++ dlTail s)
+      else if op == "sort" then
+        let fuel := s.dmax + 1
+        let before := DList.toList s.dl h fuel
+        let s := { s with dl := DList.listSort (dlLe s.dkey) s.dl h fuel }
+        let after := DList.toList s.dl h fuel
+        let keys := after.map s.dkey.get
+        let sorted := (keys.zip keys.tail).all fun ab => ab.1 ≤ ab.2
+        -- stability: rank of each element in the input order
+        let rank := (before.zipIdx).foldl (fun (r : Store) xi => r.set xi.1 (xi.2 + 1)) Store.empty
+        let stable := (after.zip after.tail).all fun ab =>
+          s.dkey.get ab.1 ≠ s.dkey.get ab.2 || rank.get ab.1 < rank.get ab.2
+        (s, s!"sort ok={if sorted then 1 else 0}{if stable then 1 else 0}" ++ dlTail s)
+      else if op == "dump" then
+        let fuel := s.dmax + 1
+        let f := DList.toList s.dl h fuel
+        let b := DList.toListRev s.dl h fuel
+        (s, "dump " ++ ",".intercalate (f.map fun x => s!"{x}/{s.dkey.get x}") ++ " | " ++
+            ",".intercalate (b.map toString))
+      else (s, "bad-op")
+    | none => (s, "bad-op")
+  | [op, h, x, p] =>
+    match h.pn, x.pn, p.pn with
+    | some h, some x, some p =>
+      if (op == "before" || op == "after") && (h = 3 || h = 4) && isItem x && s.dst.get x = 1
+              && (p = h || (isItem p && s.dst.get p = 1 + h)) then
+        let sl : DList.SL := { head := h, count := dlCount s h }
+        let r := if op == "before" then DList.statPutBefore s.dl sl x p else DList.statPutAfter s.dl sl x p
+        let s := dlSetCount { s with dl := r.1, dst := s.dst.set x (1 + h) } h r.2.count
+        (s, "ok" ++ dlTail s)
+      else (s, "bad-op")
+    | _, _, _ => (s, "bad-op")
+  -- dl fill <h> <n> <K> <seed>: n fresh nodes 5 .. 4+n with pseudo-random keys, appended to h
+  | ["fill", h, n, k, seed] =>
+    match h.pn, n.pn, k.pn, seed.pn with
+    | some h, some n, some k, some seed =>
+      let nodes := (List.range n).map (· + 5)
+      if isHead h && n ≤ dlMaxNode - 4 && k ≥ 1 && k ≤ 1000000 && nodes.all (fun x => s.dst.get x ≤ 1) then
+        let s := (List.range n).foldl (fun s i =>
+          let x := i + 5
+          let s := { s with dl := DList.listInit s.dl x, dkey := s.dkey.set x (splitmix seed i % k),
+                            dmax := max s.dmax x, dst := s.dst.set x 1 }
+          dlInsert s h x false) s
+        (s, "ok" ++ dlTail s)
+      else (s, "bad-op")
+    | _, _, _, _ => (s, "bad-op")
+  | _ => (s, "bad-op")
+
+/-! ## SHList -/
+
+def shAddr (s : St) (slot : Nat) : Nat := shArena + s.shOff + 16 * slot
+def shSlotOf (s : St) (a : Nat) : Nat := (a - (shArena + s.shOff)) / 16
+def shFuel : Nat := shSlots + 1
+
+def shHeadStr (s : St) (h : Nat) : String :=
+  let f := (SHList.toList s.sh (shAddr s h) shFuel).map (shSlotOf s)
+  let b := (SHList.toListRev s.sh (shAddr s h) shFuel).map (shSlotOf s)
+  s!" H{h}={f.length}:{hx (hashList f)}:{b.length}:{hx (hashList b)}"
+
+def shTail (s : St) : String :=
+  let ih := (List.range shSlots).foldl (fun h i =>
+    fnvI (fnvI h (s.sh.next.get (shAddr s i))) (s.sh.prev.get (shAddr s i))) fnvInit
+  shHeadStr s 0 ++ shHeadStr s 1 ++ s!" ## r={hx ih}"
+
+def shOpt (s : St) : Option Nat → String
+  | none => "null"
+  | some a => toString (shSlotOf s a)
+
+def shStep (s : St) (w : List String) : St × String :=
+  match w with
+  | ["node", k] =>
+    match k.pn with
+    | some k =>
+      if k ≥ 2 && k < shSlots && s.shSt.get k ≤ 1 then
+        let s := { s with sh := SHList.init s.sh (shAddr s k), shSt := s.shSt.set k 1 }
+        (s, "ok" ++ shTail s)
+      else (s, "bad-op")
+    | none => (s, "bad-op")
+  | [op, h, k] =>
+    match h.pn, k.pn with
+    | some h, some k =>
+      if (op == "app" || op == "pre") && h ≤ 1 && k ≥ 2 && k < shSlots && s.shSt.get k = 1 then
+        let m := if op == "app" then SHList.append s.sh (shAddr s h) (shAddr s k)
+                 else SHList.prepend s.sh (shAddr s h) (shAddr s k)
+        let s := { s with sh := m, shSt := s.shSt.set k (2 + h) }
+        (s, "ok" ++ shTail s)
+      else (s, "bad-op")
+    | _, _ => (s, "bad-op")
+  | ["rm", k] =>
+    match k.pn with
+    | some k =>
+      if k ≥ 2 && k < shSlots && s.shSt.get k ≥ 1 then
+        let s := { s with sh := SHList.remove s.sh (shAddr s k), shSt := s.shSt.set k 1 }
+        (s, "ok" ++ shTail s)
+      else (s, "bad-op")
+    | none => (s, "bad-op")
+  | ["move", off] =>
+    match off.pn with
+    | some off =>
+      if off % 8 = 0 && off + shLen ≤ shArenaLen then
+        let m := SHList.relocate s.sh (shArena + s.shOff) shLen (shArena + off)
+        let s := { s with sh := m, shOff := off }
+        (s, "ok" ++ shTail s)
+      else (s, "bad-op")
+    | none => (s, "bad-op")
+  | [op, h] =>
+    match h.pn with
+    | some h =>
+      if h > 1 then (s, "bad-op") else
+      let l := shAddr s h
+      if op == "pop" then
+        let r := SHList.pop s.sh l
+        let res := shOpt s r.2
+        let s := { s with sh := r.1, shSt := match r.2 with | none => s.shSt | some a => s.shSt.set (shSlotOf s a) 1 }
+        (s, res ++ shTail s)
+      else if op == "first" then (s, shOpt s (SHList.first s.sh l) ++ shTail s)
+      else if op == "last" then (s, shOpt s (SHList.last s.sh l) ++ shTail s)
+      else if op == "empty" then (s, (if SHList.isEmpty s.sh l then "1" else "0") ++ shTail s)
+      else if op == "dump" then
+        let f := (SHList.toList s.sh l shFuel).map (shSlotOf s)
+        let b := (SHList.toListRev s.sh l shFuel).map (shSlotOf s)
+        (s, "dump " ++ ",".intercalate (f.map toString) ++ " | " ++ ",".intercalate (b.map toString))
+      else (s, "bad-op")
+    | none => (s, "bad-op")
+  | _ => (s, "bad-op")
+
+def step (s : St) (line : String) : St × String :=
+  match words line with
+  | ["#case"] => ({}, "#case")
+  | "ht" :: w => htStep s w
+  | "hp" :: w => hpStep s w
+  | "dl" :: w => dlStep s w
+  | "sh" :: w => shStep s w
+  | _ => (s, "bad-op")
+
+end C15Drv
+
+def main : IO Unit := Usual.runDriver ({} : C15Drv.St) C15Drv.step
